@@ -127,9 +127,13 @@ class LazyLogging(SimpleCodemod, NameAndAncestorResolutionMixin):
             return None
 
         format_strings, format_args, prefixes = self.process_concat(binop)
-        if any('"' in format_string for format_string in format_strings):
+        if any(
+            '"' in format_string or "\n" in format_string
+            for format_string in format_strings
+        ):
             # The pieces are joined into one literal quoted with `"`: a piece that
-            # contains that character (e.g. 'say "hi" ') would end the literal early.
+            # contains that character (e.g. 'say "hi" ') would end the literal early,
+            # and so would the line break of a triple-quoted piece.
             return None
         if len(set(prefixes)) > 1:
             # TODO: handle more complex case of str concat with different prefixes, such as
